@@ -7,12 +7,15 @@ VARIABLES l, nrej
 Reasons(e) ==
   LET s == e.scn
       want == IF C!SetupOK(s) THEN C!LeadingOK(s) ELSE 0
-      allOK == C!SetupOK(s) /\ want = Len(s.inputs) IN
-   (IF allOK /\ e.exitObs # 0 THEN {"valid-input-rejected"} ELSE {}) \cup
-   (IF ~allOK /\ e.exitObs = 0 THEN {"exit-zero-on-failure"} ELSE {}) \cup
-   (IF e.printedObs > want THEN {"result-printed-for-failing-input"} ELSE {}) \cup
-   (IF e.printedObs < want THEN {"result-missing"} ELSE {}) \cup
-   (IF e.printedObs > 0 /\ ~e.match THEN {"output-differs-from-library"} ELSE {}) \cup
+      allOK == C!SetupOK(s) /\ want = Len(s.inputs)
+      \* the .pem/.der suffix override is behaviour the property does not promise: scenarios whose outcome hinges on it are fidelity only
+      dep == \E j \in 1..Len(s.inputs) : s.chan = "file" /\ s.inputs[j].suffix # "none" /\ s.inputs[j].suffix # s.fmt
+      G(x) == IF dep THEN "fid-suffix-" \o x ELSE x IN
+   (IF allOK /\ e.exitObs # 0 THEN {G("valid-input-rejected")} ELSE {}) \cup
+   (IF ~allOK /\ e.exitObs = 0 THEN {G("exit-zero-on-failure")} ELSE {}) \cup
+   (IF e.printedObs > want THEN {G("result-printed-for-failing-input")} ELSE {}) \cup
+   (IF e.printedObs < want THEN {G("result-missing")} ELSE {}) \cup
+   (IF e.printedObs > 0 /\ ~e.match THEN {G("output-differs-from-library")} ELSE {}) \cup
    (IF e.junk THEN {"fid-unparsable-stdout"} ELSE {})
 TraceInit == l = 1 /\ nrej = 0
 Step == /\ l <= Len(Trace)
